@@ -611,18 +611,71 @@ class Interp(BuiltinsMixin):
             if isinstance(it, Raise):
                 out.append((p, it))
                 continue
+            if isinstance(it, App) and it.op == 'gen' and \
+                    isinstance(it.args[0], Obj):
+                it = it.args[0]       # what a generator call yields
             items = self.concrete_iter(it, p)
             if items is not None and len(items) <= 8:
                 out.extend(self.unrolled_for(st, items, fr, p))
+                continue
+            cparts = None
+            if isinstance(it, Obj) and p.heap[it.oid].kind == 'list' and \
+                    not p.heap[it.oid].havoc:
+                hp = p.heap[it.oid].parts
+                if hp and len(hp) <= 8 and all(
+                        q.kind == 'elem' and not q.gens for q in hp):
+                    cparts = list(hp)
+            if cparts is not None:
+                # a list whose members were appended / yielded under
+                # conditions: member i is there when its condition holds
+                out.extend(self.unrolled_for(
+                    st, [q.val for q in cparts], fr, p,
+                    conds=[q.conds for q in cparts]))
             else:
                 out.extend(self.generic_loop(st, it, fr, p))
         return out
 
-    def unrolled_for(self, st, items, fr, path):
+    def unrolled_for(self, st, items, fr, path, conds=None):
         cur = [path]
         done = []
-        for it in items:
+        for k, it in enumerate(items):
             nxt = []
+            if conds is not None and conds[k]:
+                # paths on which the member is absent skip the iteration
+                cur2 = []
+                for p in cur:
+                    q = p.fork()
+                    present = True
+                    for (c, pol) in conds[k]:
+                        t = self.truth(c, q)
+                        if t is not None and t != pol:
+                            present = False
+                            break
+                        self.assume(c, pol, q)
+                    absent = [(c, pol) for (c, pol) in conds[k]]
+                    ta = [self.truth(c, p) for (c, pol) in absent]
+                    if all(t is not None and t == pol
+                           for t, (c, pol) in zip(ta, absent)):
+                        # surely present
+                        cur2.append(q)
+                        continue
+                    if present:
+                        cur2.append(q)
+                    # the complementary case: at least one condition fails
+                    if len(absent) == 1:
+                        c, pol = absent[0]
+                        t = self.truth(c, p)
+                        if t is None or t != pol:
+                            r = p.fork()
+                            self.assume(c, not pol, r)
+                            nxt.append(r)
+                    else:
+                        r = p.fork()
+                        r.pc.append((App('and', *[
+                            c if pol else App('not', c)
+                            for (c, pol) in absent]), False))
+                        nxt.append(r)
+                cur = cur2
             for p in cur:
                 for (q, sig) in self.assign(st.target, it, fr, p, st):
                     if sig is not None:
@@ -681,15 +734,35 @@ class Interp(BuiltinsMixin):
         are recorded as comprehension parts; scalars assigned in the body are
         widened."""
         is_for = isinstance(st, ast.For)
-        loop = LoopFrame(st, None, self.snapshot(it, path) if is_for else it,
-                         path.new_id())
+        # iterating over what a generator / comprehension produced from ONE
+        # source:   for y in (v(x) for x in XS if c(x)): body(y)
+        # is the loop   for x in XS: if c(x): body(v(x))
+        # (every part of the produced collection has the same single
+        # generator; one generic iteration per part)
+        fused = None
+        if is_for:
+            snap = self.snapshot(it, path)
+            if isinstance(snap, Coll) and snap.kind == 'list' and \
+                    snap.parts and not snap.havoc and all(
+                        q.kind == 'elem' and len(q.gens) == 1 and
+                        q.gens[0] == snap.parts[0].gens[0]
+                        for q in snap.parts) and \
+                    isinstance(it, Obj) and \
+                    not path.loops[path.heap[it.oid].loops_len:]:
+                fused = snap
+        loop = LoopFrame(st, None, (fused.parts[0].gens[0][1] if fused
+                                    else self.snapshot(it, path))
+                         if is_for else it, path.new_id())
         if not hasattr(self, 'loop_frames'):
             self.loop_frames = []
         self.loop_frames.append(loop)
         entry_pc_len = len(path.pc)
         entry = path
         body_path = entry.fork()
-        if is_for:
+        if is_for and fused is not None:
+            elem = fused.parts[0].gens[0][0]
+            loop.var = elem
+        elif is_for:
             et = self.hooks.iter_elem_type(self, it, entry)
             elem = body_path.fresh('e', et, meta=('elem', loop.iterable))
             loop.var = elem
@@ -704,7 +777,24 @@ class Interp(BuiltinsMixin):
                 f.vars[n] = body_path.fresh('w_' + n,
                                             meta=('widened', f.vars[n]))
         results = []
-        if is_for:
+        if is_for and fused is not None:
+            for part in fused.parts:
+                bp = body_path.fork()
+                feasible = True
+                for (c, pol) in part.conds:
+                    t = self.truth(c, bp)
+                    if t is not None and t != pol:
+                        feasible = False
+                        break
+                    self.assume(c, pol, bp)
+                if not feasible:
+                    continue
+                for (q, sig) in self.assign(st.target, part.val, fr, bp, st):
+                    if sig is not None:
+                        results.append((q, sig))
+                    else:
+                        results.extend(self.exec_block(st.body, fr, q))
+        elif is_for:
             for (q, sig) in self.assign(st.target, elem, fr, body_path, st):
                 if sig is not None:
                     results.append((q, sig))
